@@ -11,6 +11,7 @@ import JubakoModel.Model.DirWriter
 import JubakoModel.Lemmas.Codec
 import JubakoModel.Lemmas.DirCodec
 import JubakoModel.Lemmas.Container
+import JubakoModel.Lemmas.Layouts
 
 namespace Jubako
 
@@ -82,6 +83,65 @@ theorem c14_content_info (c b : Nat) (hc : c < 2 ^ 20) (hb : b < 2 ^ 12) :
 /-- integers are little-endian on exactly the announced width -/
 theorem c14_le_integers (v n : Nat) (h : v < 256 ^ n) : (leBytes v n).length = n ∧ leNat (leBytes v n) = v :=
   ⟨leBytes_length v n, leNat_leBytes_of_lt v n h⟩
+
+/-! ### layouts translated from the source
+
+`Generated/Layouts.lean` is written on every run by `tools/extract_layouts.py`, a translator for the
+bodies of `Serializable::serialize` and `Parsable::parse` of the fixed-layout structures: it lists,
+for the writer and for the reader, the fields in source order with their widths in bytes.  The
+theorems below are therefore re-checked against what the Rust source says *now*. -/
+
+/-- in the source, the writer and the reader of every fixed-layout structure go through the same
+    fields, in the same order, with the same widths -/
+theorem c14_source_writer_reader_agree :
+    Generated.packHeaderSer = Generated.packHeaderPar ∧
+    Generated.packInfoSer = Generated.packInfoPar ∧
+    Generated.packLocatorSer = Generated.packLocatorPar ∧
+    Generated.containerHeaderSer = Generated.containerHeaderPar ∧
+    Generated.contentHeaderSer = Generated.contentHeaderPar ∧
+    Generated.directoryHeaderSer = Generated.directoryHeaderPar ∧
+    Generated.manifestHeaderSer = Generated.manifestHeaderPar := source_writer_reader_agree
+
+/-- **the model's encoders are the source's layouts**: each encoder is the concatenation of its
+    fields in the order the Rust `serialize` writes them -/
+theorem c14_encoders_follow_source (ph : PackHeader) (pi : PackInfo) (pl : PackLocator)
+    (ch : ContainerHeader) (coh : ContentHeader) (dh : DirectoryHeader) (mh : ManifestHeader) :
+    ph.encode = layoutBytes Generated.packHeaderSer (packHeaderField ph) ∧
+    pi.encode = layoutBytes Generated.packInfoSer (packInfoField pi) ∧
+    pl.encode = layoutBytes Generated.packLocatorSer (packLocatorField pl) ∧
+    ch.encode = layoutBytes Generated.containerHeaderSer (containerHeaderField ch) ∧
+    coh.encode = layoutBytes Generated.contentHeaderSer (contentHeaderField coh) ∧
+    dh.encode = layoutBytes Generated.directoryHeaderSer (directoryHeaderField dh) ∧
+    mh.encode = layoutBytes Generated.manifestHeaderSer (manifestHeaderField mh) :=
+  ⟨packHeader_layout ph, packInfo_layout pi, packLocator_layout pl, containerHeader_layout ch,
+   contentHeader_layout coh, directoryHeader_layout dh, manifestHeader_layout mh⟩
+
+/-- … so every field of a written pack header sits at the offset, and has the width, that the
+    source's `serialize` implies (offsets 0, 4, 8, 9, 10, 26, 27, 32, 40, 48; 60 bytes) -/
+theorem c14_pack_header_fields (h : PackHeader) (hw : h.WF) :
+    h.encode.length = layoutSize Generated.packHeaderSer ∧
+    ∀ n off w, (n, off, w) ∈ fieldOffsets Generated.packHeaderSer 0 →
+      slice h.encode off w = packHeaderField h n := by
+  rw [packHeader_layout h]
+  exact ⟨layoutBytes_length _ _ (packHeader_widths h hw), layoutBytes_slice _ _ (packHeader_widths h hw)⟩
+
+/-- the offsets at which the model's decoders read are those implied by the source's `parse`
+    (the decoders of Model/Pack.lean, Open.lean, Container.lean use these literals) -/
+theorem c14_reader_offsets :
+    (fieldOffsets Generated.packHeaderPar 0).map (fun p => (p.2.1, p.2.2)) =
+      [(0, 4), (4, 4), (8, 1), (9, 1), (10, 16), (26, 1), (27, 5), (32, 8), (40, 8), (48, 12)] ∧
+    (fieldOffsets Generated.packInfoPar 0).map (fun p => (p.2.1, p.2.2)) =
+      [(0, 16), (16, 8), (24, 8), (32, 2), (34, 1), (35, 1), (36, 2), (38, 214)] ∧
+    (fieldOffsets Generated.packLocatorPar 0).map (fun p => (p.2.1, p.2.2)) = [(0, 16), (16, 8), (24, 8)] ∧
+    (fieldOffsets Generated.containerHeaderPar 0).map (fun p => (p.2.1, p.2.2)) =
+      [(0, 8), (8, 2), (10, 26), (36, 24)] ∧
+    (fieldOffsets Generated.contentHeaderPar 0).map (fun p => (p.2.1, p.2.2)) =
+      [(0, 8), (8, 8), (16, 4), (20, 4), (24, 12), (36, 24)] ∧
+    (fieldOffsets Generated.directoryHeaderPar 0).map (fun p => (p.2.1, p.2.2)) =
+      [(0, 8), (8, 8), (16, 8), (24, 4), (28, 4), (32, 1), (33, 3), (36, 24)] ∧
+    (fieldOffsets Generated.manifestHeaderPar 0).map (fun p => (p.2.1, p.2.2)) =
+      [(0, 2), (2, 8), (10, 26), (36, 24)] := by
+  refine ⟨?_, ?_, ?_, ?_, ?_, ?_, ?_⟩ <;> decide
 
 /-! ### per-structure round trips (decode ∘ encode = id) -/
 
